@@ -711,3 +711,48 @@ def graph_registry_pairing(model, rep, r, rule):
         rep.instance(rule, "system.System.%s graph nodes and name registry change together" % mname, "%s:%d" % (rel, fn.lineno), ok)
         n += 1
     rep.floor(rule, n, 4)
+
+
+# ------------------------------------------------------------------------------------------------ name resolution
+def name_resolution_rule(model, rep, r, rule):
+    """'' is the value the rail registry holds for 'no rail'.  A helper that resolves a user-supplied string to a component - by name, or
+    else by rail - must therefore not take the rail branch for the empty string: otherwise '' "names" the first component without a rail,
+    and every caller that relies on the helper to reject unknown names (batt_life, add_comp, set_comp_phases) accepts it.  `_chk_name` already
+    guards its rail lookups with `rail != ""`; the rule asks the same of the resolving helpers, on every accepting path."""
+    rel = model.rel("system")
+    hooks = EditHooks(model, r, ())
+    n = 0
+    for mname in ("_get_index", "_chk_parent"):
+        fn = model.own_method("System", mname)
+        if fn is None:
+            raise AnalysisError("name-resolution helper %s not found" % mname)
+        _, leaves = method_paths(model, r, mname, inline=())
+        pn = [a.arg for a in fn.args.args][1]
+        sm = GuardedSummarizer(hooks, Ctx())
+        env = {x.arg: Sym(("name", x.arg)) for x in fn.args.args}
+        want = sm.cond(ast.parse('%s in self._g.attrs["nodes"] or %s != ""' % (pn, pn), mode="eval").body, State(env))
+        ok = True
+        acc = 0
+        for lf in leaves:
+            if lf.kind != "return":
+                continue
+            v = getattr(lf, "value", None)
+            if mname == "_get_index":
+                from .terms import RF as _RF
+                if isinstance(v, _RF) and v.is_const() and v.const_value() == -1:
+                    continue
+            acc += 1
+            g = [e[1] for e in lf.events if e[0] == "guard"]
+            imp, al = implies(g, want)
+            if not imp:
+                ok = False
+                rep.violation(rule, "system.System.%s" % mname, "%s:%d" % (rel, fn.lineno),
+                              "the empty string is resolved through the rail registry (accepting path {%s}): '' is what the registry holds for 'no rail', so '' "
+                              "names the first component without a rail and is not rejected as an unknown name" % show_f(And(*g))[:200],
+                              "empty string resolved by rail")
+                break
+        if acc == 0:
+            raise AnalysisError("%s: no accepting path found" % mname)
+        rep.instance(rule, "system.System.%s does not resolve '' through the rail registry" % mname, "%s:%d" % (rel, fn.lineno), ok, "%d accepting paths" % acc)
+        n += 1
+    return n
